@@ -11,6 +11,8 @@ functions (REAL QUIC key derivation), the toy AEAD and the toy header-protection
   nokeyfile                                → ok          (run without -s)
   dsb <hexline> …                          → ok          (a decryption-secrets block at this point of the capture)
   pkt <tag> <tcp|udp|other> <srcip> <sport> <dstip> <dport> <csumok> <seq> <ts> <srcmac> <dstmac> <v6> <payload>  → ok
+  runfile <legacy 0|1> <key-log file text as hex | -> <capture file as hex>
+                                           → `file:<output file as hex>` | `abort:<exception kind>` (the real run dies) | `err:options`
   run                                      → frames `l4:ts:srcmac:dstmac:srcip:sport:dstip:dport:v6:flags:seq:ack:payload` joined
                                              by " ", `empty`, or `err:options`; `l4` = `t` (TCP) | `u` (UDP: flags, seq,
                                              ack are 0; the TLS model never emits a TCP frame without flags)
@@ -21,6 +23,8 @@ import TLX.QuicPipeline
 import TLX.Drv.Dissect
 import TLX.Crypto.Hash
 import TLX.Crypto.Toy
+import TLX.Ingest
+import TLX.OutBytes
 namespace TLX.Drv.Pipeline
 open TLX TLX.MainLoop TLX.Pipeline
 
@@ -36,7 +40,7 @@ def keyOfHexLine (h : String) : Option Keylog.Key := (strOfHex h).bind Keylog.ke
 
 def showPkt (p : OutPkt) : String :=
   let b01 (b : Bool) := if b then "1" else "0"
-  s!"{if p.flags = 0 then "u" else "t"}:{p.ts}:{Bytes.toHex p.srcMac}:{Bytes.toHex p.dstMac}:{Bytes.toHex p.src.ip}:{p.src.port}:{Bytes.toHex p.dst.ip}:" ++
+  s!"{if p.udp then "u" else "t"}:{p.ts}:{Bytes.toHex p.srcMac}:{Bytes.toHex p.dstMac}:{Bytes.toHex p.src.ip}:{p.src.port}:{Bytes.toHex p.dst.ip}:" ++
   s!"{p.dst.port}:{b01 p.ipv6}:{p.flags}:{p.seq}:{p.ack}:{Bytes.toHex p.payload}"
 
 def asciiNats (s : String) : List Nat := s.toList.map Char.toNat
@@ -71,6 +75,25 @@ def step (t : DSt) : List String → DSt × String
     match runFrom TM QM freshState t.args ⟨t.fileKeys, t.items⟩ with
     | .error _ => (t, "err:options")
     | .ok (_, out) => (t, if out.isEmpty then "empty" else " ".intercalate (out.map showPkt))
+  | ["runfile", legacy, keyhex, caphex] =>
+    -- FILE TO FILE: capture file bytes (TLX.Ingest = reader + DSB key lines + dpkt dissection + checksum verdicts) →
+    -- main loop with both composed machines → output file bytes (TLX.OutBytes = scapy serialisation + dpkt pcapng writer)
+    match Bytes.ofHex caphex, (if keyhex = "-" then some none else (strOfHex keyhex).map some) with
+    | some cap, some keytext =>
+      match Ingest.itemsWith Keylog.srcHexClass t.args.checksumTest (legacy == "1") cap with
+      | .error e => (t, "abort:" ++ e.name)
+      | .ok (xs, is) =>
+        let info := Ingest.lookup is
+        let fileKeys := keytext.map fun s => Keylog.getKeysFromString Keylog.srcHexClass (Keylog.universalNewlines s)
+        let TM := tlsMachine Crypto.realPrims Cipher.Toy.prims info
+        let QM := QuicPipeline.quicMachine Drv.Dissect.toyMask Crypto.realPrims Cipher.Toy.prims info
+        match runFrom TM QM freshState t.args ⟨fileKeys, xs⟩ with
+        | .error _ => (t, "err:options")
+        | .ok (_, out) =>
+          match OutBytes.fileOf out with
+          | .error e => (t, "abort:write:" ++ e.tag)
+          | .ok f => (t, "file:" ++ Bytes.toHex f)
+    | _, _ => (t, "bad-op")
   | _ => (t, "bad-op")
 
 def main : IO Unit := TLX.Drv.run {} step
